@@ -33,7 +33,9 @@ pub fn gen(seed: u64, _tier: Tier) -> ScenarioSpec {
     // what the slots of an unoccupied port hold is nobody's business: no exposed field depends on them
     rec.empty_garbage = rng.chance(1, 4);
     rec.frames.clear();
-    rec.metadata = None;
+    // usually no metadata; sometimes the tree a real recorder writes, whose per-player names are the
+    // recorder's own copy: nothing in it may find its way into the Game Start fields
+    rec.metadata = if rng.chance(1, 3) { Some(gen::gen_recorder_tree(&mut rng, &rec.ports, -123)) } else { None };
     rec.gecko = None;
     if rng.chance(4, 5) {
         rec.end = EndKind::Single;
